@@ -23,6 +23,10 @@ AlertOK(e, a) ==
   /\ ~a.nan /\ 0 <= a.conf /\ a.conf <= ONE
   \* the JSON store's exact mode uses a fixed 0.99 cut-off by design
   /\ a.conf >= (IF e.be = "json" /\ e.mode = "exact" /\ e.theta > 990000000 THEN 990000000 ELSE e.theta)
+  \* the confidence reported for (function, signature) is THE confidence of that pair — what matching this
+  \* function against this signature yields (direct, measured by the driver on the same scanner's tolerance) —
+  \* not that of another function that shares its topology hash
+  /\ ("direct" \in DOMAIN a => a.conf = a.direct)
   /\ \E k \in DOMAIN e.sigs : e.sigs[k].id = a.id
   /\ \A i \in DOMAIN SigOf(e, a.id).required :
         \E j \in DOMAIN e.calls : <<SigOf(e, a.id).required[i], e.calls[j]>> \in Sub
